@@ -93,6 +93,19 @@ func runVF12(p *Prog, r *RuleRun) {
 			} else if f.TS["scan:"+n] != "" {
 				f.TS["scan:"+n] = "re-established"
 			}
+			// a validation that compared the scan-set field with this field is void once this field changes again
+			// (e.g. the seal marker was checked against a provisional write offset that is rewound afterwards)
+			if !isCallbackFrame(cx.Fr) {
+				for k, v := range f.TS {
+					if strings.HasPrefix(k, "scandep:") && strings.Contains(","+v+",", ","+n+",") {
+						fld := strings.TrimPrefix(k, "scandep:")
+						if f.TS["scan:"+fld] == "validated" {
+							f.TS["scan:"+fld] = "speculative"
+							f.note("validation of " + fld + " voided by later store to " + n + "@" + p.Position(st.Pos()))
+						}
+					}
+				}
+			}
 		},
 		OnBranch: func(cx *Ctx, ifi *ssa.If, truth bool, f *Fact) {
 			if isCallbackFrame(cx.Fr) {
@@ -101,6 +114,13 @@ func runVF12(p *Prog, r *RuleRun) {
 			for k, st := range f.TS {
 				if strings.HasPrefix(k, "scan:") && st == "speculative" && readsWriterField(a, ifi.Cond, strings.TrimPrefix(k, "scan:"), 0) {
 					f.TS[k] = "validated"
+					var deps []string
+					for _, other := range []string{"commitBuf", "crc", "writeOffset", "indexStart"} {
+						if other != strings.TrimPrefix(k, "scan:") && readsWriterField(a, ifi.Cond, other, 0) {
+							deps = append(deps, other)
+						}
+					}
+					f.TS["scandep:"+strings.TrimPrefix(k, "scan:")] = strings.Join(deps, ",")
 				}
 			}
 		},
@@ -110,7 +130,7 @@ func runVF12(p *Prog, r *RuleRun) {
 			}
 			var ks []string
 			for k := range f.TS {
-				if strings.HasPrefix(k, "scan:") {
+				if strings.HasPrefix(k, "scan:") && !strings.HasPrefix(k, "scandep:") {
 					ks = append(ks, k)
 				}
 			}
